@@ -152,6 +152,22 @@ CHECKS.update({
     ),
 })
 
+CHECKS.update({
+    "C07": (
+        "exploration",
+        "round-trip idempotence testing: load -> dump -> load -> dump on generated "
+        "texts, gap texts, the corpus and a pool of loader-only values",
+        "For every loadable text and encoder (with random options) the second load "
+        "must equal the first up to the encoder's documented normalisations and the "
+        "second dump must be byte-identical to the first (set elements may be "
+        "reordered, compared with a quote-aware set sorter). All tests/data files "
+        "and pool texts run on every invocation. Sampled.",
+        "Trusted: vlib/normalise.py canonical forms; the default loader is used for "
+        "both loads (its own correctness is C03's subject).",
+        "DESIGN.md 4/C07",
+    ),
+})
+
 PENDING = {}   # id -> reason while a check is not built yet
 
 
